@@ -1038,22 +1038,22 @@ func (cl *constLiteral) emit(c *Compiler, node parser.Node) (Opcode, int, int) {
 	return opcode, operand, pos
 }
 
-func (cl *constLiteral) toExpr() parser.Expr {
+func (cl *constLiteral) toExpr(pos parser.Pos) parser.Expr {
 	switch v := cl.value.(type) {
 	case Int:
-		return &parser.IntLit{Value: int64(v)}
+		return &parser.IntLit{Value: int64(v), ValuePos: pos}
 	case Uint:
-		return &parser.UintLit{Value: uint64(v)}
+		return &parser.UintLit{Value: uint64(v), ValuePos: pos}
 	case Float:
-		return &parser.FloatLit{Value: float64(v)}
+		return &parser.FloatLit{Value: float64(v), ValuePos: pos}
 	case Char:
-		return &parser.CharLit{Value: rune(v)}
+		return &parser.CharLit{Value: rune(v), ValuePos: pos}
 	case String:
-		return &parser.StringLit{Value: string(v)}
+		return &parser.StringLit{Value: string(v), ValuePos: pos}
 	case Bool:
-		return &parser.BoolLit{Value: bool(v)}
+		return &parser.BoolLit{Value: bool(v), ValuePos: pos}
 	case *UndefinedType:
-		return &parser.UndefinedLit{}
+		return &parser.UndefinedLit{TokenPos: pos}
 	default:
 		panic(fmt.Errorf("unexpected object type: %T", v))
 	}
